@@ -2,10 +2,55 @@
 
 package cli
 
-import "github.com/Vedant9500/WTF/internal/database"
+import (
+	"github.com/Vedant9500/WTF/internal/database"
+	"github.com/spf13/pflag"
+)
 
 // VerifSaveToPersonalDatabase exposes the notebook's read-modify-write to the bounded
 // round-trip suite of /verif (compiled only with the build tag verif).
 func VerifSaveToPersonalDatabase(dbPath string, entry database.Command) error {
 	return saveToPersonalDatabase(dbPath, entry)
+}
+
+// VerifRunSave runs the Run function of `wtf save` (pipelineCmd false: args are command,
+// description) or `wtf save-pipeline` (pipelineCmd true: args are name, command) with the given
+// flag values, exactly as cobra would after parsing them, and restores the flag defaults
+// afterwards. Slice flags are set element by element (no comma splitting), the way repeated
+// --keywords options arrive. Compiled only with the build tag verif.
+func VerifRunSave(pipelineCmd bool, args []string, keywords []string, category string, platforms []string, pipeline bool, description string) {
+	cmd := saveCmd
+	if pipelineCmd {
+		cmd = savePipelineCmd
+	}
+	fs := cmd.Flags()
+	setSlice := func(name string, v []string) {
+		if f := fs.Lookup(name); f != nil {
+			if sv, ok := f.Value.(pflag.SliceValue); ok {
+				_ = sv.Replace(append([]string{}, v...))
+				f.Changed = len(v) > 0
+			}
+		}
+	}
+	setSlice("keywords", keywords)
+	setSlice("platforms", platforms)
+	_ = fs.Set("category", category)
+	if pipelineCmd {
+		_ = fs.Set("description", description)
+	} else if pipeline {
+		_ = fs.Set("pipeline", "true")
+	} else {
+		_ = fs.Set("pipeline", "false")
+	}
+	defer func() {
+		setSlice("keywords", nil)
+		setSlice("platforms", nil)
+		_ = fs.Set("category", "")
+		if pipelineCmd {
+			_ = fs.Set("description", "")
+		} else {
+			_ = fs.Set("pipeline", "false")
+		}
+	}()
+	cmd.Run(cmd, args)
 }
